@@ -186,6 +186,15 @@ func mustParse(s string) (*proj.SR, error) {
 	return sr, nil
 }
 
+var decoys = []string{
+	`GEOGCS["Decoy_A",DATUM["Decoy_Datum_A",SPHEROID["Bessel_1841",6377397.155,299.1528128],TOWGS84[7.5,-3,11]],PRIMEM["Greenwich",0],UNIT["Degree",0.017453292519943295]]`,
+	`PROJCS["Decoy_B",GEOGCS["GCS_B",DATUM["Decoy_Datum_B",SPHEROID["GRS_1980",6378137,298.257222101],TOWGS84[-120,44,9]],PRIMEM["Greenwich",0],UNIT["Degree",0.017453292519943295]],PROJECTION["Transverse_Mercator"],PARAMETER["latitude_of_origin",0],PARAMETER["central_meridian",9],PARAMETER["scale_factor",0.9996],PARAMETER["false_easting",500000],PARAMETER["false_northing",0],UNIT["Meter",1]]`,
+	`GEOGCS["Decoy_C",DATUM["Decoy_Datum_C",SPHEROID["International_1924",6378388,297],TOWGS84[1,2,3,0.4,0.5,0.6,7]],PRIMEM["Greenwich",0],UNIT["Degree",0.017453292519943295]]`,
+	"+proj=longlat +ellps=intl +towgs84=-87,-98,-121 +no_defs",
+	"+proj=utm +zone=31 +ellps=bessel +towgs84=5,6,7,0.1,0.2,0.3,1 +no_defs",
+	"EPSG:3857",
+}
+
 func runWKT(c Case) (v vkit.Verdict) {
 	p4 := c.D.String()
 	w := c.D.WKT(c.WKTOpt, c.Variant)
@@ -233,6 +242,10 @@ func runWKT(c Case) (v vkit.Verdict) {
 	}
 	if err != nil {
 		return fail("parsing the WKT: %v", err)
+	}
+	// other texts parsed afterwards (with datum clauses of every length) leave the reference obtained above alone
+	for _, decoy := range decoys {
+		proj.Parse(decoy)
 	}
 	srP, err := mustParse(p4)
 	if err != nil {
